@@ -592,4 +592,75 @@ theorem har_bundle_read_back (url : Bundle.BUrlFacts) (parseOk : Bytes → Bool)
   obtain ⟨b', h1, h2, h3, h4, h5, σ, hσ, hl, hu, hi⟩ := C03.read_write url parseOk _ bytes hdom hw hlen
   exact ⟨b', h1, h2, h3, h4, h5, σ, hσ, hl, hu, hi⟩
 
+/-- **the tool as a whole.** When `gen-bundle -har` exits 0 having written `bytes`: `fromHar` succeeded with some exchange list, `bytes`
+    is what `WriteTo` produced for the bundle assembled from it (so `har_bundle_read_back` applies), and — unless `-ignoreErrors` was
+    given — a primary URL names one of the exchanges (`Validate`), so b1's fallback URL is always a resource of the bundle. -/
+theorem har_validated_primary (ver : Bundle.BVer) (primary manifest : Option Bytes) (ig : Bool) (entries : List Entry) (bytes : Bytes)
+    (h : genBundle ver primary manifest ig entries = .wrote bytes) :
+    ∃ out, fromHar entries = some out ∧ Bundle.write (bundleOfHar ver primary manifest out) = .ok (.ok bytes) ∧
+      (ig = false → ∀ u, primary = some u → ∃ x ∈ out, x.url = u) := by
+  unfold genBundle at h
+  cases hf : fromHar entries with
+  | none => simp [hf] at h
+  | some out =>
+    simp only [hf] at h
+    refine ⟨out, rfl, ?_, ?_⟩
+    · split at h
+      · cases h
+      · unfold bundleOfHar
+        split at h <;> first | (injection h with h; subst h; assumption) | cases h
+    · intro hig u hu
+      subst hig
+      split at h
+      · cases h
+      · rename_i hv
+        simp only [Bool.not_false, Bool.true_and, Bool.not_eq_true', Bool.not_eq_false] at hv
+        unfold validate at hv
+        simp only [hu] at hv
+        obtain ⟨x, hx, hxu⟩ := List.any_eq_true.mp hv
+        exact ⟨x, hx, by simpa using hxu⟩
+
 end WebPkg.C20Har
+
+/-! ## non-vacuity: a four-entry HAR (kept / POST dropped / status 99 dropped / same URL again without Variants dropped) -/
+section Example
+namespace WebPkg.C20Har
+open WebPkg WebPkg.Http WebPkg.HarWalk
+
+/-- "https://a.b/" -/
+def ex_url : Bytes := [104, 116, 116, 112, 115, 58, 47, 47, 97, 46, 98, 47]
+/-- "https://a.b/2" -/
+def ex_url2 : Bytes := ex_url ++ [50]
+/-- "POST" -/
+def ex_post : Bytes := [80, 79, 83, 84]
+/-- response headers: `content-type: a`, `:status: 200` (pseudo header), `SET-COOKIE: x` (uncached, upper case) -/
+def ex_resH : List (Bytes × Bytes) :=
+  [([99, 111, 110, 116, 101, 110, 116, 45, 116, 121, 112, 101], [97]),
+   ([58, 115, 116, 97, 116, 117, 115], [50, 48, 48]),
+   ([83, 69, 84, 45, 67, 79, 79, 75, 73, 69], [120])]
+def ex_entries : List Entry :=
+  [ { key := some ex_url, method := methodGet, status := 200, reqH := [], resH := ex_resH, body := some [104, 105] },
+    { key := some ex_url2, method := ex_post, status := 200, reqH := [], resH := [], body := some [] },
+    { key := some ex_url2, method := methodGet, status := 99, reqH := [], resH := [], body := some [] },
+    { key := some ex_url, method := methodGet, status := 404, reqH := [], resH := [], body := some [120] } ]
+
+/-- only the first entry survives, with `Content-Type` as its only header field -/
+example : fromHar ex_entries =
+    some [{ url := ex_url, resp := { status := 200, headers := [([67, 111, 110, 116, 101, 110, 116, 45, 84, 121, 112, 101], [[97]])], body := [104, 105] } }] := by
+  decide +kernel
+
+/-- an entry whose body does not decode aborts the run even though it would have been dropped for its method -/
+example : fromHar [{ key := some ex_url, method := ex_post, status := 200, reqH := [], resH := [], body := none }] = none := by
+  decide +kernel
+
+/-- the hypotheses of `har_first_kept` are satisfiable (first entry of `ex_entries`) -/
+example : eligible ex_entries[0] = true ∧ (toExch ex_entries[0]).isSome = true := by decide +kernel
+
+/-- two representations of one URL are both kept when both carry `Variants` -/
+example : (fromHar
+    [ { key := some ex_url, method := methodGet, status := 200, reqH := [], resH := [(kVariants, [97])], body := some [1] },
+      { key := some ex_url, method := methodGet, status := 200, reqH := [], resH := [(kVariants, [97])], body := some [2] } ]).map List.length
+    = some 2 := by decide +kernel
+
+end WebPkg.C20Har
+end Example
